@@ -139,8 +139,13 @@ def spell_addr(rnd, plat, a):
         c, t = ag.spell(rnd, plat, a[1], a[2])
         return c, "[]", t, None
     kw = "object-group" if plat == "ios" else "addrgroup"
-    mem = [ag.spell(rnd, plat, b, m) for b, m in a[2]]
-    return f'(SGroup {coq_str(a[1])} [])', coq_list(c for c, _ in mem), f"{kw} {a[1]}", [t for _, t in mem]
+    # same text => same entry: the group name is a function of the member sets, members are spelled canonically
+    import zlib
+    norm = sorted({(b & ~m & ag.ALL, m) for b, m in a[2]})
+    name = f"{a[1]}-{zlib.crc32(repr(norm).encode()) % 100000}"
+    srnd = random.Random(zlib.crc32(repr(norm).encode()))
+    mem = [ag.spell(srnd, plat, b, m, dirty=False) for b, m in [tuple(x) for x in a[2]]]
+    return f'(SGroup {coq_str(name)} [])', coq_list(c for c, _ in mem), f"{kw} {name}", [t for _, t in mem]
 
 
 def port_text(p):
